@@ -1,6 +1,6 @@
 (* C04 -- BioSeq behaves like its residue string; BioBasket like a list of them.
    Only statements here; proofs are in lib/C04_PySlice.v and proof/C04_Lemmas.v. *)
-From Coq Require Import List ZArith Bool.
+From Coq Require Import List ZArith Bool QArith.
 From Coq.Strings Require Import Byte.
 Import ListNotations.
 From SV Require Import Text C04_PySlice C04_Model C04_Lemmas.
@@ -110,6 +110,22 @@ Theorem C04_setitem_slice : forall s sl v, contiguous sl = true ->
 Proof. exact seq_setitem_slice. Qed.
 Print Assumptions C04_setitem_slice.
 
+(* seq[a:b:c] = v is list assignment on the residues followed by ''.join, for EVERY slice *)
+Theorem C04_setitem_is_list_assign : forall s sl v,
+  seq_setitem s (ISlice sl) v = match setslice (data s) sl v with Ok r => Ok (set_data s r) | Err e => Err e end.
+Proof. exact seq_setitem_is_list_assign. Qed.
+Print Assumptions C04_setitem_is_list_assign.
+
+(* extended slices (step <> 1): ValueError unless len(v) = slicelength; else v[k] lands at start + k*step, rest kept *)
+Theorem C04_setitem_extended : forall s sl v start stop step n,
+  slice_indices (Z.of_nat (length (data s))) sl = Some (start, stop, step, n) -> step <> 1 ->
+  (Z.of_nat (length v) <> n -> seq_setitem s (ISlice sl) v = Err ValueError) /\
+  (Z.of_nat (length v) = n -> exists r, seq_setitem s (ISlice sl) v = Ok (mkseq r (sid s)) /\ length r = length (data s) /\
+     (forall k, (k < length v)%nat -> nth_error r (Z.to_nat (start + Z.of_nat k * step)) = nth_error v k) /\
+     (forall p, (forall k, (k < length v)%nat -> p <> Z.to_nat (start + Z.of_nat k * step)) -> nth_error r p = nth_error (data s) p)).
+Proof. exact seq_setitem_extended. Qed.
+Print Assumptions C04_setitem_extended.
+
 (* ---- str_namespace_parametric: for every wrapped method whatsoever ---- *)
 Theorem C04_str_namespace_parametric : forall (Arg R : Type) (m_t : str -> Arg -> str) (m_q : str -> Arg -> R) s b a,
   data (str_transform Arg m_t s a) = m_t (data s) a /\ sid (str_transform Arg m_t s a) = sid s /\
@@ -188,6 +204,48 @@ Theorem C04_basket_assign_slice : forall b sl j v, contiguous sl = true ->
 Proof. exact basket_set_slj_contig. Qed.
 Print Assumptions C04_basket_assign_slice.
 
+(* seqs[a:b:c, j] = x for EVERY first-axis slice: the positions are those of seqs[a:b:c]; exactly they are assigned *)
+Theorem C04_basket_assign_any_slice : forall b sl j v r, basket_set_slj b sl j v = Ok r ->
+  exists ps, getslice (seq 0 (length b)) sl = Ok ps /\
+    getslice b sl = Ok (map (fun p => nth p b (mkseq [] [])) ps) /\
+    length r = length b /\
+    (forall p, In p ps -> exists s s', nth_error b p = Some s /\ seq_setitem s j v = Ok s' /\ nth_error r p = Some s') /\
+    (forall p, ~ In p ps -> nth_error r p = nth_error b p).
+Proof. exact basket_set_slj_any. Qed.
+Print Assumptions C04_basket_assign_any_slice.
+
+(* the history variant that keeps earlier assignments when a later sequence raises agrees with it *)
+Theorem C04_basket_assign_partial_update : forall j v ps b,
+  upd_positions b ps j v = match upd_positions_st b ps j v with (b', None) => Ok b' | (_, Some e) => Err e end.
+Proof. exact upd_positions_st_agree. Qed.
+Print Assumptions C04_basket_assign_partial_update.
+
+(* seqs[i] = x: list item assignment of a new, constructor-normalised sequence *)
+Theorem C04_basket_set_item : forall b i v,
+  match getitem b i with
+  | Ok s => exists b1 b2, b = b1 ++ s :: b2 /\
+            Z.of_nat (length b1) = (if i <? 0 then i + Z.of_nat (length b) else i) /\
+            basket_set_int b i v = Ok (b1 ++ new_seq v [] :: b2)
+  | Err e => basket_set_int b i v = Err e
+  end.
+Proof. exact basket_set_int_spec. Qed.
+Print Assumptions C04_basket_set_item.
+
+(* seqs[a:b] = xs splices; seqs[a:b:c] = xs needs matching sizes *)
+Theorem C04_basket_set_items : forall b sl vs,
+  (contiguous sl = true ->
+   basket_set_slice b sl vs =
+     Ok (firstn (Z.to_nat (lo_of (Z.of_nat (length b)) (sl_start sl))) b ++ map (fun v => new_seq v []) vs ++
+         skipn (Z.to_nat (Z.max (hi_of (Z.of_nat (length b)) (sl_stop sl)) (lo_of (Z.of_nat (length b)) (sl_start sl)))) b)) /\
+  (forall start stop step n, slice_indices (Z.of_nat (length b)) sl = Some (start, stop, step, n) -> step <> 1 ->
+   (Z.of_nat (length vs) <> n -> basket_set_slice b sl vs = Err ValueError) /\
+   (Z.of_nat (length vs) = n -> exists r, basket_set_slice b sl vs = Ok r /\ length r = length b /\
+      (forall k, (k < length vs)%nat ->
+         nth_error r (Z.to_nat (start + Z.of_nat k * step)) = option_map (fun v => new_seq v []) (nth_error vs k)) /\
+      (forall p, (forall k, (k < length vs)%nat -> p <> Z.to_nat (start + Z.of_nat k * step)) -> nth_error r p = nth_error b p))).
+Proof. exact (fun b sl vs => conj (basket_set_slice_contig b sl vs) (basket_set_slice_extended b sl vs)). Qed.
+Print Assumptions C04_basket_set_items.
+
 (* ---- counts ---- *)
 Theorem C04_counts : forall b, b <> [] ->
   exists k, countall b = Ok k /\ (forall c, k c = count c (concat (map data b))) /\
@@ -203,6 +261,23 @@ Theorem C04_gc : forall s,
   (snd (gc_counts s) <= length s)%nat.
 Proof. exact gc_counts_spec. Qed.
 Print Assumptions C04_gc.
+
+(* probabilities (countall(rtype='prob')) and GC content as exact rationals *)
+Theorem C04_probabilities : forall b k, countall b = Ok k -> (0 < length (concat (map data b)))%nat ->
+  (forall c, (prob_of k c == Z.of_nat (count c (concat (map data b))) # Pos.of_nat (length (concat (map data b))))%Q) /\
+  (fold_right Qplus 0 (map (prob_of k) all_bytes) == 1)%Q.
+Proof. exact prob_spec. Qed.
+Print Assumptions C04_probabilities.
+
+Theorem C04_gc_fraction : forall s,
+  ((count "G"%byte s + count "C"%byte s + (count "A"%byte s + count "T"%byte s + count "U"%byte s) = 0)%nat ->
+     (gc_fraction s == 0)%Q) /\
+  ((0 < count "G"%byte s + count "C"%byte s + (count "A"%byte s + count "T"%byte s + count "U"%byte s))%nat ->
+     (gc_fraction s == Z.of_nat (count "G"%byte s + count "C"%byte s) #
+        Pos.of_nat (count "G"%byte s + count "C"%byte s + (count "A"%byte s + count "T"%byte s + count "U"%byte s)))%Q) /\
+  (0 <= gc_fraction s <= 1)%Q.
+Proof. exact gc_fraction_spec. Qed.
+Print Assumptions C04_gc_fraction.
 
 (* ---- non-vacuity ---- *)
 Example C04_witness_slice : getslice (bs "A-CG--T"%bs) (mkslice (Some (-5)) (Some 9) None) = Ok (bs "CG--T"%bs) /\
@@ -225,3 +300,13 @@ Example C04_witness_basket :
   = Ok [mkseq (bs "ACGT"%bs) (bs "s0"%bs); mkseq (bs "GNA"%bs) (bs "s1"%bs)] /\
   basket_set_ij (mk_basket [bs "ACGT"%bs]) 1 (IInt 0) (bs "N"%bs) = Err IndexError.
 Proof. exact (conj eq_refl (conj eq_refl eq_refl)). Qed.
+
+Example C04_witness_extended :
+  slice_indices 6 (mkslice (Some 5) None (Some (-2))) = Some (5, -1, -2, 3) /\
+  seq_setitem (mkseq (bs "ACGTNN"%bs) (bs "x"%bs)) (ISlice (mkslice (Some 5) None (Some (-2)))) (bs "123"%bs)
+    = Ok (mkseq (bs "A3G2N1"%bs) (bs "x"%bs)) /\
+  seq_setitem (mkseq (bs "ACGTNN"%bs) (bs "x"%bs)) (ISlice (mkslice (Some 5) None (Some (-2)))) (bs "12"%bs) = Err ValueError /\
+  basket_set_slj (mk_basket [bs "AC"%bs; bs "GG"%bs; bs "TT"%bs]) (mkslice None None (Some 2)) (IInt 0) (bs "x"%bs)
+    = Ok [mkseq (bs "xC"%bs) (bs "s0"%bs); mkseq (bs "GG"%bs) (bs "s1"%bs); mkseq (bs "xT"%bs) (bs "s2"%bs)] /\
+  (gc_fraction (bs "GGCA-N"%bs) == 3 # 4)%Q.
+Proof. exact (conj eq_refl (conj eq_refl (conj eq_refl (conj eq_refl eq_refl)))). Qed.
